@@ -617,6 +617,12 @@ fn dense_extra<F: PrimeField>(t: &mut Tape<'_>, o: &mut Obs, nmax: usize) -> R {
         }
         let want: Vec<F> = c.ta.iter().map(|v| *v + F::one()).collect();
         ensure!(y.to_evaluations() == want, "iter_mut", "iter_mut() does not write through");
+        // IntoIterator for &mut
+        let mut y = a.clone();
+        for v in &mut y {
+            *v += F::one();
+        }
+        ensure!(y.to_evaluations() == want, "into_iter_mut", "(&mut mle).into_iter() does not write through");
     }
     Ok(())
 }
@@ -657,6 +663,10 @@ fn concat_rel<F: PrimeField>(t: &mut Tape<'_>, o: &mut Obs, nmax: usize) -> R {
     let refs: Vec<&Dense<F>> = polys.iter().collect();
     let r2 = no_panic("concat", || Dense::concat(refs.as_slice()))?;
     ensure!(r2 == r, "concat.refs", "concat over a slice of references differs");
+    let r3 = no_panic("concat", || Dense::concat(polys.clone()))?;
+    ensure!(r3 == r, "concat.owned", "concat over an owned Vec differs");
+    let r4 = no_panic("concat", || Dense::concat(polys.iter()))?;
+    ensure!(r4 == r, "concat.iter", "concat over slice::Iter differs");
     let got = r.evaluate(&pt);
     let w = mle_eval(&want, &pt);
     ensure!(got == w, "concat.evaluate", "concat result evaluates to {} expected {}", got, w);
@@ -733,6 +743,56 @@ fn agree_rel<F: PrimeField>(t: &mut Tape<'_>, o: &mut Obs, nmax: usize) -> R {
 }
 
 // ---------------------------------------------------------------------------------------
+// the random constructors: documented shape of the result (arity, table size, number and range of stored entries)
+// ---------------------------------------------------------------------------------------
+
+fn rand_rel<F: PrimeField>(t: &mut Tape<'_>, o: &mut Obs) -> R {
+    use ark_std::rand::SeedableRng;
+    let n = match t.weighted(&[1, 1, 4, 3]) {
+        0 => 0,
+        1 => 1,
+        2 => t.range(2, 7) as usize,
+        _ => t.range(8, 12) as usize,
+    };
+    let mut rng = ark_std::rand::rngs::StdRng::seed_from_u64(t.u64());
+    let k = match t.weighted(&[1, 1, 3, 1]) {
+        0 => 0,
+        1 => 1,
+        2 => t.range(0, (1u64 << n).min(600)) as usize,
+        _ => ((1usize << n) * 3 / 4).min(600),
+    };
+    o.show(|| format!("rand: n={} rand_with_config k={}", n, k));
+    o.nt(n >= 2);
+    o.class_if(n == 0, "n=0");
+    o.class_if(k == 1 << n, "rand-all-entries");
+    o.evals(3);
+    let d = no_panic("dense.rand", || <Dense<F> as MultilinearExtension<F>>::rand(n, &mut rng))?;
+    ensure!(d.num_vars == n && d.evaluations.len() == 1 << n, "dense.rand", "rand({}) has num_vars {} and {} table entries", n, d.num_vars, d.evaluations.len());
+    let s = no_panic("sparse.rand_with_config", || Sparse::<F>::rand_with_config(n, k, &mut rng))?;
+    ensure_eq!(s.num_vars, n, "sparse.rand_with_config.num_vars");
+    ensure!(s.wellformed(), "sparse.rand_with_config.malformed", "an index is outside 0..2^{}: {:?}", n, s);
+    ensure_eq!(s.evaluations.len(), k, "sparse.rand_with_config.count", "rand_with_config({}, {})", n, k);
+    // Index / to_evaluations / dense form agree with the stored map
+    let tab = s.to_evaluations();
+    ensure_eq!(tab.len(), 1usize << n, "sparse.rand_with_config.to_evaluations.len");
+    for (i, v) in tab.iter().enumerate() {
+        ensure!(*v == s.evaluations.get(&i).copied().unwrap_or(F::zero()) && s[i] == *v, "sparse.rand_with_config.table", "entry {} of rand_with_config({}, {})", i, n, k);
+    }
+    // documented: "The number of nonzero entries is sqrt(2^num_vars)" - exact for even n, between the neighbouring powers of
+    // two for odd n
+    let r = no_panic("sparse.rand", || <Sparse<F> as MultilinearExtension<F>>::rand(n, &mut rng))?;
+    ensure_eq!(r.num_vars, n, "sparse.rand.num_vars");
+    ensure!(r.wellformed(), "sparse.rand.malformed", "an index is outside 0..2^{}: {:?}", n, r);
+    let cnt = r.evaluations.len();
+    if n % 2 == 0 {
+        ensure_eq!(cnt, 1usize << (n / 2), "sparse.rand.count", "rand({})", n);
+    } else {
+        ensure!(cnt >= 1 << ((n - 1) / 2) && cnt <= 1 << ((n + 1) / 2), "sparse.rand.count", "rand({}) stores {} entries", n, cnt);
+    }
+    Ok(())
+}
+
+// ---------------------------------------------------------------------------------------
 
 fn field_rels<F: PrimeField>(out: &mut Vec<Rel>, fname: &str, tier: Tier) {
     let nmax = tier.pick(10usize, 14usize);
@@ -755,6 +815,11 @@ fn field_rels<F: PrimeField>(out: &mut Vec<Rel>, fname: &str, tier: Tier) {
     let tmax = tier.pick(8usize, 24usize);
     out.push(Rel::new(format!("mv.evaluate/{}", fname), q(4000), 400 + 24 * tmax, move |t, o| mv::eval_rel::<F>(t, o, tmax)));
     out.push(Rel::new(format!("mv.ops/{}", fname), q(4000), 400 + 48 * tmax, move |t, o| mv::ops_rel::<F>(t, o, tmax)));
+    let big = F::MODULUS_BIT_SIZE >= 128;
+    out.push(Rel::new(format!("mv.rand/{}", fname), q(600), 64, move |t, o| mv::rand_rel::<F>(t, o, big)));
+    out.push(Rel::new(format!("rand/{}", fname), q(600), 64, move |t, o| rand_rel::<F>(t, o)));
+    let mt = tier.pick(1500usize, 6000usize);
+    out.push(Rel::new(format!("mv.many-terms/{}", fname), q(400), 64, move |t, o| mv::many_terms_rel::<F>(t, o, mt)).shrink_iters(300));
 }
 
 mod large;
@@ -774,7 +839,7 @@ fn relations(tier: Tier) -> Vec<Rel> {
 fn main() {
     vh_core::engine::main(PropSpec {
         id: "C17",
-        rule: "Tables of 2^n field values (n = 0..10, thorough 14; zero, 1-6 non-zero entries, ~sqrt(2^n) entries, dense from the tape or expanded from a tape word) over BLS12-381 Fr and the toy field F_97 are built as dense and as sparse extensions (sparse: distinct indices in a tape-chosen order, optional explicit zero entries); points are Boolean, uniform or mixed edge values; every prefix length 0..=n is bound; relabel windows are k=0, a=b or disjoint windows including b+k=n, in both orders; operands of + - neg scale += -= +=(f,.) are tables of equal arity or the Zero representation; concat takes 0..5 tables of equal or different sizes. Oracle: the definition f(x) = sum_b T[b] prod_i (b_i x_i + (1-b_i)(1-x_i)) computed by one product per index (bit i <-> variable i), tables read through Index. Multivariate: term lists with duplicates, cancelling and zero coefficients, unordered/repeated variables, zero exponents, 0..6 variables; oracle = sum of c*prod x_v^e on the raw list and a BTreeMap normal form for term count and degree. A case is non-trivial when it has >= 2 variables, >= 2 non-zero table entries (multivariate: >= 2 non-zero merged terms) and, where a point is an input, a non-Boolean point (relabel: a non-empty swap); distinct = distinct decoded choice sequences. Large regime (own relations): sparse extensions of 12..=18 variables with up to 9000 stored entries (entry counts around 2^10..2^13) checked against sums over the stored entries - evaluate, fix_variables (table of the restriction), relabel (the stored map must be the image of the stored map under the window exchange; class: more than 1024 entries with an index and its image both stored); dense tables of 10..=18 variables - fix_variables for partial points of length 0..6, n and uniform against sum_low table[j*2^dim+low]*eq(low, point), evaluate, relabel against the bit-window permutation.",
+        rule: "Tables of 2^n field values (n = 0..10, thorough 14; zero, 1-6 non-zero entries, ~sqrt(2^n) entries, dense from the tape or expanded from a tape word) over BLS12-381 Fr and the toy field F_97 are built as dense and as sparse extensions (sparse: distinct indices in a tape-chosen order, optional explicit zero entries); points are Boolean, uniform or mixed edge values; every prefix length 0..=n is bound; relabel windows are k=0, a=b or disjoint windows including b+k=n, in both orders; operands of + - neg scale += -= +=(f,.) are tables of equal arity or the Zero representation; concat takes 0..5 tables of equal or different sizes. Oracle: the definition f(x) = sum_b T[b] prod_i (b_i x_i + (1-b_i)(1-x_i)) computed by one product per index (bit i <-> variable i), tables read through Index. Multivariate: term lists with duplicates, cancelling and zero coefficients, unordered/repeated variables, zero exponents, 0..6 variables; oracle = sum of c*prod x_v^e on the raw list and a BTreeMap normal form for term count and degree. A case is non-trivial when it has >= 2 variables, >= 2 non-zero table entries (multivariate: >= 2 non-zero merged terms) and, where a point is an input, a non-Boolean point (relabel: a non-empty swap); distinct = distinct decoded choice sequences. Added: multivariate exponents up to 2^58 (classes 2^a, 2^a +- 1, 2^a + uniform for a = 6..57; oracle uses Field::pow for exponents above 64); the random constructors (relations rand, mv.rand; StdRng seeded from the tape): DenseMultilinearExtension::rand(n) has n variables and 2^n entries, SparseMultilinearExtension::rand_with_config(n, k) stores exactly k entries with indices below 2^n and Index/to_evaluations agree with the stored map, SparseMultilinearExtension::rand(n) stores sqrt(2^n) entries (exactly 2^(n/2) for even n, between the neighbouring powers of two for odd n), multivariate rand(d, l) has l variables, only univariate terms x_v^e with v < l, 1 <= e <= d (plus a constant), no monomial twice, degree <= d (= d and 1 + l*d terms over the 255-bit field) and evaluates to the sum of its stored terms; IntoIterator for &mut dense; concat over an owned Vec and over slice::Iter. Relation mv.many-terms: term lists of 21..1500 (thorough 6000) terms over 1..5 variables with exponents <= 3 expanded from one tape word (many terms share a monomial or a total degree; the right operand repeats left terms negated) through from_coefficients_vec/slice (normal form) and + - +=(f,.). Large regime (own relations): sparse extensions of 12..=18 variables with up to 9000 stored entries (entry counts around 2^10..2^13) checked against sums over the stored entries - evaluate, fix_variables (table of the restriction), relabel (the stored map must be the image of the stored map under the window exchange; class: more than 1024 entries with an index and its image both stored); dense tables of 10..=18 variables - fix_variables for partial points of length 0..6, n and uniform against sum_low table[j*2^dim+low]*eq(low, point), evaluate, relabel against the bit-window permutation.",
         assumptions: &[
             "prime-field arithmetic of ark-ff is correct (subject of C01/C02); it is used inside the oracle",
             "overlapping relabel windows and operands of different non-zero arity are documented panics and are not generated",
